@@ -10,6 +10,7 @@ import (
 	"sync"
 	"time"
 
+	"github.com/zmap/zcrypto/encoding/asn1"
 	"github.com/zmap/zcrypto/x509"
 
 	"zv/internal/zv"
@@ -330,8 +331,117 @@ func window(chain x509.CertificateChain) (lo, hi time.Time) {
 	return
 }
 
+// ---- `c07 eku <chain> <usages>`: checkChainForKeyUsage alone (through the verif hook) ----
+
+// usageSpec is the declarative rule proved equivalent to the model's checkChainForKeyUsage
+// (Lean: UsageSpec / checkChainForKeyUsage_spec): non-empty chain and (nothing requested, or some
+// requested slot -- the in-band sentinel -1 trivially -- is supported by every certificate).
+func usageSpec(chain []*x509.Certificate, kus []x509.ExtKeyUsage) bool {
+	if len(chain) == 0 {
+		return false
+	}
+	if len(kus) == 0 {
+		return true
+	}
+	for _, u := range kus {
+		if u == -1 {
+			return true
+		}
+		all := true
+		for _, c := range chain {
+			all = all && supports(c, u)
+		}
+		if all {
+			return true
+		}
+	}
+	return false
+}
+
+func ekuOf(k int) x509.ExtKeyUsage {
+	if k < 0 {
+		return x509.ExtKeyUsage(k)
+	}
+	return ekuList[k]
+}
+
+func execEku(f []string) zv.Out {
+	var chain []*x509.Certificate
+	tags := []string{"eku-direct"}
+	if f[2] != "_" {
+		for _, cs := range strings.Split(f[2], ";") {
+			p := strings.Split(cs, ":")
+			c := &x509.Certificate{}
+			for _, k := range parseIdx(p[0]) {
+				c.ExtKeyUsage = append(c.ExtKeyUsage, ekuOf(k))
+			}
+			if p[1] == "1" {
+				c.UnknownExtKeyUsage = []asn1.ObjectIdentifier{{1, 2, 3, 4}}
+			}
+			chain = append(chain, c)
+		}
+	} else {
+		tags = append(tags, "eku-empty-chain")
+	}
+	var kus []x509.ExtKeyUsage
+	for _, k := range parseIdx(f[3]) {
+		kus = append(kus, ekuOf(k))
+		if k < 0 {
+			tags = append(tags, "eku-sentinel-requested")
+		}
+	}
+	if len(kus) == 0 {
+		tags = append(tags, "eku-nothing-requested")
+	}
+	got := x509.ZVCheckChainForKeyUsage(chain, kus)
+	viol := ""
+	if want := usageSpec(chain, kus); got != want {
+		viol = fmt.Sprintf("checkChainForKeyUsage = %v, the declarative rule (some requested usage supported by every certificate) gives %v", got, want)
+	}
+	tags = append(tags, fmt.Sprintf("eku-%v", got), fmt.Sprintf("eku-chainlen-%d", len(chain)))
+	return zv.Out{Go: strconv.FormatBool(got), Viol: viol, Tags: tags}
+}
+
+// ---- `c07 isvalid <type> <bc> <ca> <maxPathLen> <len(currentChain)>`: isValid alone (verif hook) ----
+// type: 0 leaf, 1 intermediate, 2 root.  This is the guard that bounds the recursion of buildChains
+// (Lean: buildChains_never_out_of_fuel relies on `len(currentChain) > maxIntermediateCount` failing).
+
+func execIsValid(f []string) zv.Out {
+	ty, _ := strconv.Atoi(f[2])
+	mpl, _ := strconv.Atoi(f[5])
+	n, _ := strconv.Atoi(f[6])
+	c := &x509.Certificate{BasicConstraintsValid: f[3] == "1", IsCA: f[4] == "1", MaxPathLen: mpl}
+	chain := make(x509.CertificateChain, n)
+	for i := range chain {
+		chain[i] = &x509.Certificate{}
+	}
+	ct := []x509.CertificateType{x509.CertificateTypeLeaf, x509.CertificateTypeIntermediate, x509.CertificateTypeRoot}[ty]
+	got := errKind(c.ZVIsValid(ct, chain))
+	// independent statement of the rule
+	want := "ok"
+	switch {
+	case ty == 1 && !(c.BasicConstraintsValid && c.IsCA):
+		want = "notAuthorizedToSign"
+	case c.BasicConstraintsValid && mpl >= 0 && n-1 > mpl:
+		want = "tooManyIntermediates"
+	case n >= 11:
+		want = "tooManyIntermediates"
+	}
+	viol := ""
+	if got != want {
+		viol = fmt.Sprintf("isValid = %s, expected %s (CA gate for intermediates, path-length limit, at most 10 certificates below)", got, want)
+	}
+	return zv.Out{Go: got, Viol: viol, Tags: []string{"isvalid-direct", "isvalid-" + got, fmt.Sprintf("isvalid-len-%d", n)}}
+}
+
 func exec(line string) zv.Out {
 	f := strings.Fields(line)
+	if f[1] == "eku" {
+		return execEku(f)
+	}
+	if f[1] == "isvalid" {
+		return execIsValid(f)
+	}
 	seed, _ := strconv.ParseUint(f[1], 10, 64)
 	p := getPKI(seed)
 	if p.desc != f[2]+" "+f[3] {
@@ -518,9 +628,39 @@ func gen(g *zv.Gen) {
 				idxList(kus), zv.Hex([]byte(dns)), san, lds, zv.Hex([]byte(lc.Subject.CommonName)))
 		}
 	}
+	// checkChainForKeyUsage alone: every chain of <= 2 certificates over 13 EKU shapes x 18 request lists
+	// (incl. the empty list and the sentinel -1), then random longer chains.
+	ekuCerts := []string{"_:0", "_:1", "0:0", "1:0", "2:0", "3:0", "4:0", "5:0", "1.2:0", "2.3:0", "0.2:0", "2:1", "4.5:0"}
+	ekuReqs := []string{"_", "1", "2", "5", "-1", "1.2", "2.1", "2.5", "-1.2", "2.-1", "1.1", "2.2", "2.5.1", "5.-1.2", "0", "0.2", "3", "4"}
+	for _, u := range ekuReqs {
+		g.Emitf("c07 eku _ %s", u)
+		for _, a := range ekuCerts {
+			g.Emitf("c07 eku %s %s", a, u)
+			for _, b := range ekuCerts {
+				g.Emitf("c07 eku %s;%s %s", a, b, u)
+			}
+		}
+	}
+	// isValid alone, exhaustively around the depth bound (chains of 0..14 certificates)
+	for ty := 0; ty < 3; ty++ {
+		for flags := 0; flags < 4; flags++ {
+			for _, mpl := range []int{-1, 0, 1, 2, 5, 9, 10, 11, 12} {
+				for n := 0; n <= 14; n++ {
+					g.Emitf("c07 isvalid %d %d %d %d %d", ty, flags&1, flags>>1, mpl, n)
+				}
+			}
+		}
+	}
+	for k, n := 0, g.N(1500, 30000); k < n; k++ {
+		var cs []string
+		for i, l := 0, 3+r.Intn(4); i < l; i++ {
+			cs = append(cs, ekuCerts[r.Intn(len(ekuCerts))])
+		}
+		g.Emitf("c07 eku %s %s", strings.Join(cs, ";"), ekuReqs[r.Intn(len(ekuReqs))])
+	}
 }
 
 func init() {
 	zv.Register(&zv.Prop{ID: "C07", Topic: "c07", Gen: gen, Exec: exec,
-		Rule: "random PKIs of 3-7 real Ed25519 certificates (layered: 70% issued by an earlier certificate, 15% by any certificate incl. later ones and itself (cross-signs, loops), 15% self-signed; 30% cross-signed twins sharing subject+key with an earlier certificate; shared key ids; random BasicConstraints/IsCA/MaxPathLen, KeyUsage, EKU sets incl. Any/SGC/unknown, validity windows incl. empty intersections, AKID present/absent/wrong, 10% bad signatures) x 8 queries each (leaf, root subset, intermediate subset and order, nil intermediates, verification time incl. exact NotBefore/NotAfter boundaries, requested key usages, DNS name). The abstract PKI (identities, flags, times, real-signature sigOK matrix) is sent to the model; compared: error kind and the multiset of chains per class. T3 = independent path checker applying the property's sentence to every returned chain, date-class check, nil-error check."})
+		Rule: "random PKIs of 3-7 real Ed25519 certificates (layered: 70% issued by an earlier certificate, 15% by any certificate incl. later ones and itself (cross-signs, loops), 15% self-signed; 30% cross-signed twins sharing subject+key with an earlier certificate; shared key ids; random BasicConstraints/IsCA/MaxPathLen, KeyUsage, EKU sets incl. Any/SGC/unknown, validity windows incl. empty intersections, AKID present/absent/wrong, 10% bad signatures) x 8 queries each (leaf, root subset, intermediate subset and order, nil intermediates, verification time incl. exact NotBefore/NotAfter boundaries, requested key usages, DNS name). The abstract PKI (identities, flags, times, real-signature sigOK matrix) is sent to the model; compared: error kind and the multiset of chains per class. T3 = independent path checker applying the property's sentence to every returned chain, date-class check, nil-error check. Plus `c07 eku`: checkChainForKeyUsage alone (verif hook) on all chains of <= 2 certificates over 13 EKU shapes x 18 request lists (incl. empty list, sentinel -1, duplicates, SGC) and random chains of 3-6; model compared, T3 = the declarative rule UsageSpec re-implemented in the harness. Plus `c07 isvalid`: isValid alone (verif hook) for every certificate type x BasicConstraints/IsCA x 9 path-length limits x current chains of 0..14 certificates (the guard that bounds the recursion depth)."})
 }
